@@ -148,6 +148,17 @@ func sinkSites(p *an.Prog, eval map[*an.Fn]bool) []sinkSite {
 				if t, ok := info.Types[call.Fun].Type.(*types.Named); ok && t.Obj().Name() == "SafeWriter" && len(call.Args) == 2 {
 					out = append(out, sinkSite{f, call, "SafeWriter-call", call.Args[0], call.Args[1:]})
 				}
+			default:
+				// any other call that is handed the runtime's raw output writer or its escaping writer
+				// (buf.WriteTo(st.Writer), a helper taking the writer …) is an output sink as well
+				for _, a := range call.Args {
+					if k := p.FieldKey(info, an.Unparen(a)); k == "escapeeWriter.Writer" || k == "Runtime.escapeeWriter" {
+						if g := p.FnByObj[an.Callee(info, call)]; g != nil {
+							continue // a module function: its own writes are classified where they happen (writer parameter)
+						}
+						out = append(out, sinkSite{f, call, name, a, nil})
+					}
+				}
 			}
 			return true
 		})
